@@ -44,7 +44,7 @@ CLAIMED = {
     "C08": ("exploration",
             "fault-injection PBT: for generated multi-frame images, fail the k-th (and every later) tracked allocation for every / sampled k via the cfg(jxl_oxide_verif) AllocTracker switch, then run a generated program of later calls (render same/other keyframes, region changes, lift / re-arm the fault); worker-process isolation with deadline; every Ok render bit-identical to a never-failed decode",
             "Generated-input search over images with reference frames, blending and patches, over all (small images: exhaustive) or sampled fault points, and over post-failure call sequences. A call that never returns is a confirmed deadline overrun of the isolated worker; any later successful render must equal the same keyframe/region of a fresh decode that never failed, bit for bit.",
-            "Trusted: the allocation-fault hook (hooks_commits.txt, 031567c) fails exactly the allocations registered with the tracker. Deadlines (60 s per case, 600 s alone) decide 'never returns'; an unconfirmed overrun is reported as inconclusive (exit 2), never as a violation.",
+            "Trusted: the allocation-fault hook (hooks_commits.txt, 031567c) fails exactly the allocations registered with the tracker. Deadlines (20 s per case, 200 s alone) decide 'never returns'; an unconfirmed overrun is reported as inconclusive (exit 2), never as a violation.",
             "DESIGN.md §4 C08"),
     "C09": ("exploration",
             "metamorphic PBT: generated valid files x generated chunkings (structure-boundary biased) fed through the incremental API vs whole-buffer read; field-wise and sample-wise equality",
